@@ -53,6 +53,10 @@ pub enum Op {
     Clear { slot: u8 },
     Take { slot: u8 },
     CloneSlot { slot: u8 },
+    /// clone() even while placeholders are pending (the copy must keep hiding them); the
+    /// outstanding backref tokens whose bit is set in `give` go with the copy (a token is used
+    /// once, on either of the two), the others stay with the original.
+    CloneWithPending { slot: u8, give: u8 },
     DropSlot { slot: u8 },
     Flush { slot: u8 },
     Ensure { slot: u8, len: u32 },
@@ -140,6 +144,7 @@ pub struct Stats {
     pub partial_byte_consumptions: usize,
     pub chunk_creations: usize,
     pub chunk_fills: usize,
+    pub clones_with_pending: usize,
     pub anchored_pushes: usize,
     pub anchored_partially_consumed: bool,
     pub max_pending: usize,
@@ -267,7 +272,12 @@ impl World {
                 let si = self.pick_slot(*slot);
                 let slices: Vec<&'static [u8]> = parts.iter().map(|(o, l)| pool_slice(*o, *l as u32)).collect();
                 let all: Vec<u8> = slices.concat();
-                self.append(si, &all, |io| io.extend(slices.iter().map(|s| IoSlice::new(s))));
+                // `extend` takes any IntoIterator: a lazy map, a Vec, or a filter (whose size hint says little).
+                match parts.len() % 3 {
+                    0 => self.append(si, &all, |io| io.extend(slices.iter().map(|s| IoSlice::new(s)))),
+                    1 => self.append(si, &all, |io| io.extend(slices.iter().map(|s| IoSlice::new(s)).collect::<Vec<_>>())),
+                    _ => self.append(si, &all, |io| io.extend(slices.iter().map(|s| IoSlice::new(s)).filter(|_| true))),
+                }
             }
             Op::FromSlices { parts, collect } => {
                 if self.slots.len() < MAX_SLOTS {
@@ -392,6 +402,39 @@ impl World {
                     let nl = self.slots[ni].lineage;
                     self.splits.push((src_lineage, nl));
                     self.stats.clones += 1;
+                }
+            }
+            Op::CloneWithPending { slot, give } => {
+                let si = self.pick_slot(*slot);
+                if self.slots.len() < MAX_SLOTS {
+                    let s = &mut self.slots[si];
+                    let copy = s.io.clone();
+                    let m = s.m.clone();
+                    let src_lineage = s.lineage;
+                    s.mutated_since_split = false;
+                    s.merged_or_backfilled_since_split = false;
+                    let (has_anchored, may_alias) = (s.has_anchored, s.may_alias);
+                    // Hand some of the tokens over.
+                    let mut kept = vec![];
+                    let mut given = vec![];
+                    for (k, r) in std::mem::take(&mut s.refs).into_iter().enumerate() {
+                        if (*give >> (k % 8)) & 1 == 1 {
+                            given.push(r);
+                        } else {
+                            kept.push(r);
+                        }
+                    }
+                    s.refs = kept;
+                    let had_pending = !m.pending.is_empty();
+                    let ni = self.new_slot(copy, m, given);
+                    self.slots[ni].has_anchored = has_anchored;
+                    self.slots[ni].may_alias = may_alias;
+                    let nl = self.slots[ni].lineage;
+                    self.splits.push((src_lineage, nl));
+                    self.stats.clones += 1;
+                    if had_pending {
+                        self.stats.clones_with_pending += 1;
+                    }
                 }
             }
             Op::DropSlot { slot } => {
@@ -1067,6 +1110,7 @@ fn op_name(op: &Op) -> &'static str {
         Op::Clear { .. } => "clear",
         Op::Take { .. } => "take",
         Op::CloneSlot { .. } => "clone",
+        Op::CloneWithPending { .. } => "clone",
         Op::DropSlot { .. } => "drop",
         Op::Flush { .. } => "flush_cache",
         Op::Ensure { .. } => "ensure_capacity",
@@ -1223,6 +1267,7 @@ pub fn op(mix: Mix) -> BoxedStrategy<Op> {
         2 => slot().prop_map(|slot| Op::DropSlot { slot }),
         1 => (parts(), any::<bool>()).prop_map(|(parts, collect)| Op::FromSlices { parts, collect }),
     ];
+    let clone_pending = (slot(), any::<u8>()).prop_map(|(slot, give)| Op::CloneWithPending { slot, give });
     let held = prop_oneof![
         3 => (slot(), any::<u32>(), prop_oneof![small_size(), 1000u32..5000]).prop_map(|(slot, off, len)| Op::Hold { slot, off, len }),
         2 => (any::<u8>(), prop_oneof![0u16..10, 0u16..300]).prop_map(|(idx, mid)| Op::HeldSplit { idx, mid }),
@@ -1239,8 +1284,8 @@ pub fn op(mix: Mix) -> BoxedStrategy<Op> {
         1 => (slot(), any::<u32>(), huge_size()).prop_map(|(slot, off, len)| Op::Hold { slot, off, len }),
     ];
     match mix {
-        Mix::General => prop_oneof![100 => push, 50 => patch, 70 => consume, 20 => arena, 20 => structure, 10 => held, 1 => huge].boxed(),
-        Mix::Backpatch => prop_oneof![6 => small_push, 2 => push, 9 => patch, 6 => consume, 1 => arena, 1 => structure].boxed(),
+        Mix::General => prop_oneof![100 => push, 50 => patch, 70 => consume, 20 => arena, 20 => structure, 10 => held, 1 => huge, 4 => clone_pending].boxed(),
+        Mix::Backpatch => prop_oneof![6 => small_push, 2 => push, 9 => patch, 6 => consume, 1 => arena, 1 => structure, 1 => clone_pending].boxed(),
         Mix::Memory => prop_oneof![8 => push, 3 => patch, 6 => consume, 3 => arena, 5 => structure, 6 => held].boxed(),
         Mix::Split => prop_oneof![9 => push, 5 => patch, 6 => consume, 1 => arena, 1 => held].boxed(),
     }
